@@ -15,7 +15,8 @@ func init() {
 		Pkgs:      []string{"container/bytes", "files"},
 		Run:       runC17,
 		Technique: "static analysis: sentinel result-use rule, must-pass-through path queries, must-lockset dataflow, atomic-only census and sibling agreement on go/ssa of container/bytes/blocks.go",
-		Explanation: "R1: the sentinel (-1) of the geometry function GetBlocksInSegment is tested at every call site on an edge that dominates every arithmetic use of the result; the rejecting exit returns an error wrapping ErrInvalid - in the constructor, or in a private validation function of the constructor whose error the constructor hands out unchanged on every path on which it is non-nil. " +
+		Explanation: "R18 (session 4): no path of ArrangeBlock/FreeBlock leads from an unconditional atomic modification of the free counter (CompareAndSwap excluded) to an exit whose error is provably non-nil: Available() is read without the lock, so reserve-then-undo is observable. " +
+			"R1: the sentinel (-1) of the geometry function GetBlocksInSegment is tested at every call site on an edge that dominates every arithmetic use of the result; the rejecting exit returns an error wrapping ErrInvalid - in the constructor, or in a private validation function of the constructor whose error the constructor hands out unchanged on every path on which it is non-nil. " +
 			"R2: every success exit of ArrangeBlock passes a store that sets a bit in a slice obtained from the underlying buffer and an atomic decrement of the free counter; every success exit of FreeBlock passes the clearing store, dominated by the 'bit is set' edge (no double free), and the atomic increment. Success exits are exit points (a return of merged results counts per alternative); when the body of the operation runs as a function literal that the method invokes on every path and that reports through the method's captured error variable, the literal's points that leave that variable nil are the success exits. The set store is guarded by the 'bit is clear' edge (directly, through a flag that is only true where the test succeeded, through the ok/error result of a private helper every exit of which that can produce this result is behind the test, or by choosing the bit as TrailingZeros of the non-zero complement of the header byte - non-zero known as such, or because the byte read from the element being written is known not to be 0xFF). The free counter is an int32 word used through sync/atomic functions or a typed atomic.Int32. " +
 			"R3: header bytes (slices from bts.Buffer) and the free hint are read/written in the functions that carry out ArrangeBlock/FreeBlock (the method, its function literals, the private helpers it calls) only with the allocator mutex held - held on entry of a helper/literal when every place that runs it holds it (static call on the same receiver, direct call, wrapper that calls its function parameter under the lock); every Lock reaches an Unlock on all paths including error exits. " +
 			"R4: every success exit of the constructor passes the routine that recomputes the free counter from the headers (it reads them from the buffer and no loop of the functions that carry it out - the routine, its function literals, its private helpers - is left early except towards a failing exit point); elsewhere the counter is touched only through sync/atomic. " +
